@@ -9,12 +9,36 @@ VM = ("C01", "C03")
 VF = ("srv.cl", "net")
 
 
+def vis_machine(k):
+    """spec/VisMachine.tla: the visibility bookkeeping alone, complete state space for four entity names
+    (histories of any length); the as-found variants must violate the invariants."""
+    import checklib as L
+    for cfg, must_fail in (("VisMachine_black.cfg", False), ("VisMachine_white.cfg", False),
+                           ("VisMachine_F2.cfg", True), ("VisMachine_F14.cfg", True),
+                           ("VisMachine_F20.cfg", True), ("VisMachine_F20b.cfg", True)):
+        r = C.run_tlc_in(k.sd, "VisMachine", cfg, k.wd, workers=4, timeout=900)
+        if must_fail:
+            k.found_runs.append({"config": cfg, "found": r["violated"], "states_generated": r["states"]})
+            if not r["violated"]:
+                raise L.ToolError(f"vacuity: {cfg} satisfies the invariants of VisMachine")
+        else:
+            k.states += r["distinct"]
+            k.transitions += r["states"]
+            k.mc_runs.append({"config": cfg, "invariants": ["Query", "HeldExact", "HeldTruth", "Shape"],
+                              "complete_state_space": True, "distinct": r["distinct"],
+                              "states_generated": r["states"], "violated": r["violated"], "wall_s": round(r["wall"], 1)})
+            if r["violated"]:
+                k.v.violation(L.save_replay(PID, f"{cfg}-tlc-counterexample.txt", r["out"][-12000:]),
+                              f"TLC: the visibility bookkeeping violates its invariants in {cfg}")
+
+
 def main(tier, seed, replay):
     if replay:
         return C.replay_file(PID, replay)
     k = C.CoreCheck(PID, tier, seed)
     inv = ["Inv_C08", "Inv_C03", "Inv_C01"]   # data/query, gain delivers the whole entity, loss removes it
     vis = dict(kinds=("spawn", "despawn", "setvis", "mutate"), ticks=3)
+    vis_machine(k)
     if tier == "quick":
         k.model_check("MC_Vis_white", mc_consts(policy="white", ops=4, **vis), inv)
         k.model_check("MC_Vis_black", mc_consts(policy="black", ops=3, **vis), inv)
